@@ -256,7 +256,21 @@ def _comp(pred_name, name, generator):
     return c
 
 
+def _disp_component():
+    # socket half: raw datagrams of every kind (tools/props/dispgen.raw_datagram) go through the real socket
+    # Dispatcher; the model is the extracted wire parser composed with the dispatcher model
+    from . import disp_common, dispgen
+
+    def gen_hostile_disp(rng, tier):
+        # the shared op lists, with raw datagrams far more often
+        return dispgen.gen(rng, tier)
+    c = disp_common.component("c10", name="disp_hostile")
+    c["gen"] = gen_hostile_disp
+    return c
+
+
 COMPONENTS = [
+    _disp_component(),
     _comp("c10_step_ok", "vsock", gen),
     _comp("c10_bounded", "vsock_bounded", lambda rng, tier: gen_hostile(rng.fork("hostile"), tier)),
 ]
